@@ -71,6 +71,10 @@ CHECKS = {
    "rapid-generated multi-package generic programs, progen bundles and the corpus built repeatedly (fresh in-process sessions, plain/minified/with source map, fresh compiler processes, permuted file lists on the command line, after another program in the same session); sha256 of JavaScript and source map must agree within each (program, options) class",
    "ordering races are sampled (n builds per class, reported); the session-history sub-check has an open known finding",
    "property-based metamorphic testing: repeated builds must be byte-identical (rapid-generated programs and file-order permutations)"),
+ "C02": ("exploration",
+   "rapid-generated programs whose statement boundaries and sub-expressions are suspension sites controlled by a run-time bit mask; for every program the traces under the empty mask, the full mask and rapid-drawn subsets must be identical to each other, to the trace of the same text built with non-blocking yield functions (direct compilation form) and to the native run",
+   "trusts the native Go toolchain as reference; suspension uses a channel closed by a helper goroutine, no other goroutine is runnable in between; sites whose relative evaluation order the spec leaves open are not instrumented",
+   "property-based metamorphic testing over suspension subsets plus differential testing against native Go (rapid)"),
 }
 PENDING_REASON = "check not built yet in this session (work in progress; see DESIGN.md §8 for the order)"
 props=[json.loads(l)['id'] for l in open('/verif/properties.jsonl')]
